@@ -3,6 +3,7 @@
 #include "ambient.h"
 #include "statics.h"
 #include "vsched.h"
+#include "trap.h"
 
 #include <algorithm>
 #include <time.h>
@@ -106,6 +107,9 @@ bool attributable(const Op &op, Result &ref, std::string &why) {
     ExecOpts o;
     o.wallLimitSec = g_wallLimit;
     refallocSweep();
+    // pristine static storage for the reference copy before every one of its executions: its heap is swept after each,
+    // so static state that points into that heap (a free list, a cached block) must not survive either
+    trapWithPagesWritable(staticsRestoreRef);
     double t0 = nowSeconds();
     ref = execOp(REF, op, o);
     g_lastRefSeconds = nowSeconds() - t0;
@@ -127,8 +131,10 @@ bool attributable(const Op &op, Result &ref, std::string &why) {
         why = "reference execution wrote outside the caller's buffers";
         return false;
     }
+    trapWithPagesWritable(staticsRestoreRef);
     Result again = execOp(REF, op, o);
     refallocSweep();
+    trapWithPagesWritable(staticsRestoreRef);
     ambientRestore(true);
     if (!again.sameAs(ref)) {
         why = "reference execution is not repeatable";
